@@ -149,7 +149,11 @@ def r05_2(ctx):
             it = ast.unparse(loop.iter)
             if label == "default":
                 member = f"{it}[*][0]"
-                want = {(f"expr_value({it}[*][1])", True), (f"{member}.visibility", True)}
+                # ... and the default must name one of the choice's own symbols (a default outside the choice can never be y
+                # *as a member*; asking for its visibility may lead back into the choice - fixed defect 5.45)
+                mem = (f"{member}.choice is self", True) if (f"{member}.choice is self", True) in gs or (f"{member} in self.syms", True) not in gs \
+                    else (f"{member} in self.syms", True)
+                want = {(f"expr_value({it}[*][1])", True), (f"{member}.visibility", True), mem}
             else:
                 member = f"{it}[*]"
                 want = {(f"{member}.visibility", True)}
